@@ -171,6 +171,19 @@ def decorations(ser, n, nid, rng):
         ('MAND-tags', M.MAND(orig(), **{tname(0): ...}), ['mand', [[None, P], [0, ['wild']]]], [[0, node]]),
         ('MAND-override', M.MAND(M.M(..., **{tname(1): 1}), M.M(orig(), **{tname(1): 2})),
          ['mand', [[None, ['m', ['wild'], None, [[1, 1]]]], [None, ['m', P, None, [[1, 2]]]]]], [[1, ['s', 2]]]),
+        # captures made INSIDE a keyword member are kept next to the member tag, and can be back-referenced afterwards
+        ('MAND-tagged-inner-capture', M.MAND(**{tname(1): M.M(**{tname(0): orig(), tname(5): 7})}),
+         ['mand', [[1, ['m', P, 0, [[5, 7]]]]]], [[0, node], [1, node], [5, ['s', 7]]]),
+        ('MAND-backref-into-tagged', M.MAND(**{tname(1): M.M(**{tname(0): ...}), tname(2): M.MTAG(tname(0))}),
+         ['mand', [[1, ['m', ['wild'], 0, []]], [2, ['ref', 0]]]], [[0, node], [1, node], [2, node]]),
+        ('MAND-anon-then-tagged-inner', M.MAND(M.M(orig(), **{tname(5): 1}), **{tname(1): M.MOR(other, **{tname(0): ...})}),
+         ['mand', [[None, ['m', P, None, [[5, 1]]]], [1, ['mor', [[None, ['type', ko]], [0, ['wild']]]]]]], [[0, node], [1, node], [5, ['s', 1]]]),
+        ('MOR-tagged-inner-capture', M.MOR(other, **{tname(1): M.M(**{tname(0): orig()})}),
+         ['mor', [[None, ['type', ko]], [1, ['m', P, 0, []]]]], [[0, node], [1, node]]),
+        ('MMAYBE-tagged-inner-capture', M.MMAYBE(**{tname(1): M.M(**{tname(0): orig(), tname(5): 2})}),
+         ['mmaybe', ['m', P, 0, [[5, 2]]], 1, []], [[0, node], [1, node], [5, ['s', 2]]]),
+        ('M-tagged-inner-capture', M.M(**{tname(1): M.MAND(**{tname(0): orig()})}),
+         ['m', ['mand', [[0, P]]], 1, []], [[0, node], [1, node]]),
         ('MAND-fail', M.MAND(orig(), other), ['mand', [[None, P], [None, ['type', ko]]]], None),
         ('MNOT-other', M.MNOT(**{tname(2): other, tname(3): 7}), ['mnot', ['type', ko], 2, [[3, 7]]], [[2, node], [3, ['s', 7]]]),
         ('MNOT-self', M.MNOT(orig()), ['mnot', P, None, []], None),
